@@ -4,7 +4,7 @@ From Coq Require Import Ascii String List NArith.
 Import ListNotations.
 Require Import Laze.model.Base Laze.model.Env Laze.model.Allow Laze.model.Ninja Laze.model.Ctx
         Laze.model.Resolver Laze.model.Generate Laze.model.Checks Laze.model.Load
-        Laze.proofs.ResolverFacts Laze.proofs.GenerateFacts Laze.proofs.ResolverTotal Laze.proofs.LoadKeys Laze.proofs.LoadProvides.
+        Laze.proofs.ResolverFacts Laze.proofs.GenerateFacts Laze.proofs.ResolverTotal Laze.proofs.LoadKeys Laze.proofs.LoadProvides Laze.proofs.LoadStored.
 Open Scope list_scope.
 
 (* The resolver, for every lookup function, provider map, disabled set, fuel and app: if it
@@ -106,3 +106,38 @@ Theorem C01_closure_loaded :
     forall x, In x (sel rst) -> forall d, In d (m_selects x) -> closed_dep rst d.
 Proof. exact configured_build_closed_loaded. Qed.
 Print Assumptions C01_closure_loaded.
+
+(* No side condition left: for every project that loads and every build that a generation of it
+   reports — whatever the selection, partition, --select, --disable and -D — the reported module list
+   is the resolver's, contains the app, and is closed under hard dependencies. (After fix 94ae0f6 an
+   app shadowed for a builder by a nearer definition of its name is not built; what a builder resolves
+   an unshadowed app's name to IS the app: proofs/LoadStored.v.) *)
+Theorem C01_generated_builds_closed :
+  forall H EV t pf bd b le bsel asel local part select disable cli_env g,
+  load t pf bd = Ok b ->
+  generate H EV b le bsel asel local part select disable cli_env = Ok g ->
+  forall info, In info (gr_builds g) ->
+  exists rst app',
+    bi_modules info = map m_name (sel rst) /\
+    m_name app' = bi_binary info /\
+    In app' (sel rst) /\
+    forall x, In x (sel rst) -> forall d, In d (m_selects x) -> closed_dep rst d.
+Proof. exact generated_builds_closed. Qed.
+Print Assumptions C01_generated_builds_closed.
+
+(* the side condition app_okb holds for every configured build of a loaded project's app *)
+Theorem C01_app_ok_loaded : forall H EV t pf bd b le builder binary select disable cli_env info entries,
+  load t pf bd = Ok b -> In binary (all_modules b) -> m_is_binary binary = true ->
+  configure_build H EV b le builder binary select disable cli_env = Ok (Built info entries) ->
+  app_okb b builder binary = true.
+Proof. exact configured_app_ok. Qed.
+Print Assumptions C01_app_ok_loaded.
+
+(* a configured build is never a shadowed app; an unshadowed app of a loaded project is what its
+   builder resolves the app's name to *)
+Theorem C01_unshadowed_is_resolved : forall t pf bd b builder binary,
+  load t pf bd = Ok b -> In binary (all_modules b) -> m_is_binary binary = true ->
+  shadowed b builder binary = false ->
+  forall seen, resolve_module b builder (m_name binary) = Some seen -> seen = binary.
+Proof. exact unshadowed_is_resolved. Qed.
+Print Assumptions C01_unshadowed_is_resolved.
